@@ -85,6 +85,11 @@ LatShift(c, idx) ==
                 + (IF NDim(c) >= 2 THEN idx[2]*c.lvecs[2][i] ELSE 0)
                 + (IF NDim(c) >= 3 THEN idx[3]*c.lvecs[3][i] ELSE 0)]
 
+(* A transformation in parentheses after FILL=n (the form completed by --lattice) moves every element; *)
+(* after a FILL ARRAY it belongs to the entry it follows, and the deck format of the generators can    *)
+(* only write it after the last entry: it moves the last element of the array and no other             *)
+ElemHasFtr(c, idx) == c.hasftr /\ (c.latopt \/ PosInArray(c, idx) = Len(c.lunivs))
+
 (***************************************************************************)
 (* Locate: chain of cell numbers from the innermost filler to the level-0  *)
 (* container; <<>> = in no cell; <<-1>> = on a surface (point to be        *)
@@ -112,7 +117,7 @@ Locate(D, u, P, fuel) ==
                 mark == -(1000 * c.n + PosInArray(c, idx))     \* lattice element of cell c.n
             IN IF uu = 0 THEN <<>>
                ELSE IF uu = c.u THEN <<mark>>
-               ELSE LET P1 == IF c.hasftr THEN ToAux(c.ftr, P0)
+               ELSE LET P1 == IF ElemHasFtr(c, idx) THEN ToAux(c.ftr, P0)
                               ELSE IF c.hastrcl THEN ToAux(c.trcl, P0) ELSE P0
                         inner == Locate(D, uu, P1, fuel - 1)
                     IN IF inner = <<>> THEN <<>>
